@@ -63,4 +63,23 @@ example : validB 2 4 (R.empty : R Nat Nat) demo = true := by decide +kernel
 example : ((applyOps (empty 2 4 : G Nat Nat) demo).bind (fun g => sliceSome g 0 (fun a b _ => !(a == 0 && b == 2)))).map keys
     = some [0, 1, 2] := by decide +kernel
 
+/-! ### a source graph with removed slots (`join()` inside a non-tree `merge`, Core/Holes.lean)
+
+C13 quantifies over *every reachable graph*. `slice_some` reads the slot of every vertex it reaches with
+`vertices.get(v).unwrap()`, and rebuilds over `vertices.iter()`, which skips removed slots, into a store of the same capacity. -/
+
+/-- when no removed slot is among the vertices reached from `v` — in particular whenever "everything reachable from `v` is
+    present", C13's own precondition — the slice is the slice of the underlying tables: all statements above apply -/
+theorem slice_ignores_unreached_removed_slots (x : GX L D) (v : Nat) (p : Nat → Nat → L → Bool) (hv : x.acc v = true)
+    (done : List Nat) (hd : sliceDone x.g v p = some done) (hh : ∀ u ∈ done, u ∉ x.holes) :
+    sliceSomeX x v p = sliceSome x.g v p := sliceSomeX_eq x v p hv done hd hh
+
+/-- a removed slot among them is a panic, not a wrong answer -/
+theorem slice_reaching_a_removed_slot_panics (x : GX L D) (v : Nat) (p : Nat → Nat → L → Bool) (done : List Nat)
+    (hd : sliceDone x.g v p = some done) (u : Nat) (hu : u ∈ done) (hh : u ∈ x.holes) : sliceSomeX x v p = none :=
+  sliceSomeX_panics x v p done hd u hu hh
+
+theorem slice_without_removed_slots (g : G L D) (v : Nat) (p : Nat → Nat → L → Bool) :
+    sliceSomeX ⟨g, []⟩ v p = sliceSome g v p := sliceSomeX_nohole g v p
+
 end Props.C13
